@@ -218,6 +218,30 @@ def _wyckoff(desc, out, wy, probe):
         out.fail("wyckoff-expr-vs-matrix", "expression %d %s evaluates to %s, W.M+C gives %s" % (k, exprs[k], np.round(P[k], 6).tolist(), np.round(num[k], 6).tolist()), key=key + ":matrix")
     if set(w["variables"]) != vars_expr:
         out.fail("wyckoff-variables", "variables %s, expressions use %s" % (sorted(w["variables"]), sorted(vars_expr)), key=key + ":variables")
+    # (1b) the tables must still be right AFTER the public API has been used on crystals of this group (a getter that
+    #      mutates the shared tables in place corrupts them for every later analysis in the same process)
+    try:
+        from matid.symmetry import SymmetryAnalyzer
+        ls = gx.letters(sg)
+        use = [ls[0]] + ([l] if l != ls[0] else [])
+        cdesc = {"sg": sg, "orbits": [{"letter": x, "q": desc["anchors"][i], "Z": 14 + 12 * i} for i, x in enumerate(use)], "raw": desc["raw"]}
+        cell, frac, nums, status = gx.conditioned(cdesc)
+        if status == "ok":
+            an = SymmetryAnalyzer(gx.make_atoms(cell, frac @ cell, nums), symmetry_tol=1e-3)
+            an.get_has_free_wyckoff_parameters(); an.get_wyckoff_sets_conventional(True); an.get_material_id(); an.get_primitive_system()
+            out.cls("api-exercised")
+    except Exception:
+        pass        # failures of the analyser itself are C05-C08's business; here only the tables are judged
+    sgn_all = sorted(k for k in W if k != "translations")
+    for other in sgn_all:
+        try:
+            ve = wyexpr.variables([c for e in W[other]["expressions"] for c in e])
+        except ValueError:
+            continue
+        if set(W[other]["variables"]) != ve:
+            out.fail("wyckoff-variables-after-use", "after using the analyser on a group-%d crystal, position %s lists variables %s but its expressions use %s"
+                     % (sg, other, sorted(W[other]["variables"]), sorted(ve)), key="wyckoff:%d:%s:variables-after-use" % (sg, other))
+            break
     # (2) closed orbit of the standard-setting group with the tabulated multiplicity
     allp = np.vstack([P] + [P + t for t in trans])
     R, t = spgref.operations(sg)
